@@ -99,6 +99,60 @@ TAMPERS = ["none", "nonce_not_prefixed", "nonce_cnonce_inside", "nonce_truncated
            "sig_truncated", "sig_empty", "sig_extended", "sig_other_password", "sig_other_salt", "sig_other_iterations", "error_reply"]
 
 
+class _DetUuid:
+    """stands in for the uuid module inside aiokafka.conn: uuid4() values come from a counter"""
+
+    def __init__(self, start):
+        self.n = start
+        self.calls = 0
+
+    def uuid4(self):
+        import uuid as _uuid
+        self.calls += 1
+        v = _uuid.UUID(int=(0x9E3779B97F4A7C15F39CC0605CEDC834 * (self.n + self.calls)) % (1 << 128), version=4)
+        return v
+
+
+_KEYS = {}
+
+
+def expected_proof(mech, user, pw, salt, iterations, cnonce, snonce="SRVNONCE"):
+    """ClientProof per RFC 5802 for the messages an RFC-conforming client would send (independent of the code)"""
+    hname, H = HASHES[mech]
+    k = (mech, pw, salt, iterations)
+    if k not in _KEYS:
+        salted = hashlib.pbkdf2_hmac(hname, pw.encode("utf-8"), salt, iterations)
+        ck = hmac.new(salted, b"Client Key", H).digest()
+        _KEYS[k] = (ck, H(ck).digest())
+    ck, stored = _KEYS[k]
+    quoted = user.replace("=", "=3D").replace(",", "=2C")
+    bare = f"n={quoted},r={cnonce}"
+    sf = f"r={cnonce}{snonce},s={base64.b64encode(salt).decode()},i={iterations}"
+    auth = f"{bare},{sf},c=biws,r={cnonce}{snonce}".encode("utf-8")
+    sig = hmac.new(stored, auth, H).digest()
+    return bytes(a ^ b for a, b in zip(ck, sig))
+
+
+PROOF_SHAPES = ["any", "leading_zero_byte", "trailing_zero_byte", "two_leading_zero_bits_only"]
+
+
+def find_nonce_start(mech, user, pw, salt, iterations, shape):
+    """counter start for _DetUuid such that the honest proof has the wanted shape (boundary of byte-string handling)"""
+    if shape == "any":
+        return 0
+    for start in range(0, 20000):
+        d = _DetUuid(start)
+        cn = str(d.uuid4()).replace("-", "")
+        p = expected_proof(mech, user, pw, salt, iterations, cn)
+        if shape == "leading_zero_byte" and p[0] == 0:
+            return start
+        if shape == "trailing_zero_byte" and p[-1] == 0:
+            return start
+        if shape == "two_leading_zero_bits_only" and 0 < p[0] < 0x40:
+            return start
+    return 0
+
+
 def w1_exchange(src):
     mech = list(HASHES)[src.choice("mechanism", 2)]
     salt = [b"s", bytes(range(16)), bytes(range(64))][src.choice("salt", 3)]
@@ -106,11 +160,15 @@ def w1_exchange(src):
     user = USERNAMES[src.choice("username", len(USERNAMES))]
     pw = PASSWORDS[src.choice("password", len(PASSWORDS))]
     tamper = TAMPERS[src.choice("tamper", len(TAMPERS))]
+    shape = PROOF_SHAPES[src.choice("proof_shape", len(PROOF_SHAPES))] if tamper == "none" else "any"
     srv = RefServer(mech, {user: pw}, salt, iterations)
     out = {}
+    det = _DetUuid(find_nonce_start(mech, user, pw, salt, iterations, shape))
 
     def run():
-        a = ScramAuthenticator(loop=None, sasl_plain_password=pw, sasl_plain_username=user, sasl_mechanism=mech)
+        with patched(CONN, uuid=det):
+            a = ScramAuthenticator(loop=None, sasl_plain_password=pw, sasl_plain_username=user, sasl_mechanism=mech)
+        out["fresh_nonce"] = det.calls == 1
         gen = a._authenticator
         client_first, _ = next(gen)
         out["client_first"] = client_first.decode("utf-8")
@@ -176,7 +234,7 @@ def w1_exchange(src):
             out["client_abort"] = "server-final: " + type(e).__name__
 
     run()
-    info = dict(mechanism=mech, salt_len=len(salt), iterations=iterations, username=user, tamper=tamper,
+    info = dict(mechanism=mech, salt_len=len(salt), iterations=iterations, username=user, tamper=tamper, proof_shape=shape,
                 observed={k: v for k, v in out.items() if k not in ("client_first", "client_final")})
     src.note(info)
     cf = out.get("client_first", "")
@@ -241,6 +299,84 @@ def u1_server_signature(src, mech):
             src.check(s_not(s_and(*[r == e for r, e in zip(recv, expected)])), "the correct server signature was rejected")
 
 
+# ------------------------------------------------------------------------------------------
+# W2: two logins in one process; an impostor replays what the honest server said in the first
+
+
+def w2_replay(src):
+    mech = list(HASHES)[src.choice("mechanism", 2)]
+    user, pw = USERNAMES[src.choice("username", 3)], PASSWORDS[src.choice("password", len(PASSWORDS))]
+    salt, iterations = bytes(range(16)), [1, 4096][src.choice("iterations", 2)]
+    logins_before = src.choice("honest_logins_before_the_recorded_one", 2)
+    det = _DetUuid(7)
+    out = {}
+
+    def login(srv_first=None, srv_final=None):
+        with patched(CONN, uuid=det):
+            a = ScramAuthenticator(loop=None, sasl_plain_password=pw, sasl_plain_username=user, sasl_mechanism=mech)
+        gen = a._authenticator
+        cf = next(gen)[0].decode("utf-8")
+        srv = RefServer(mech, {user: pw}, salt, iterations)
+        sf = srv.first(cf) if srv_first is None else srv_first
+        try:
+            cfin = gen.send(sf.encode("utf-8"))[0].decode("utf-8")
+        except (ValueError, KeyError):
+            return dict(cnonce=cf.split(",r=")[-1], aborted="server-first")
+        sfin = srv.final(cfin) if srv_final is None else srv_final
+        try:
+            gen.send(sfin.encode("utf-8"))
+        except StopIteration:
+            return dict(cnonce=cf.split(",r=")[-1], completed=True, server_first=sf, server_final=sfin)
+        except (ValueError, KeyError):
+            return dict(cnonce=cf.split(",r=")[-1], aborted="server-final")
+        return dict(cnonce=cf.split(",r=")[-1])
+
+    for _ in range(logins_before):
+        login()
+    rec = login()
+    out["recorded"] = rec
+    src.check(rec.get("completed"), "honest login did not complete", observed=str(rec))
+    if not rec.get("completed"):
+        return
+    # the impostor knows no password: it can only replay the recorded server messages
+    victim = login(srv_first=rec["server_first"], srv_final=rec["server_final"])
+    ok = victim["cnonce"] != rec["cnonce"]
+    if src.twin:
+        ok = not ok
+    src.check(ok, "two logins in one process used the same client nonce", nonce=victim["cnonce"])
+    src.check(not victim.get("completed"),
+              "client completed authentication with an impostor that only replayed a recorded exchange", observed=str(victim))
+
+
+# ------------------------------------------------------------------------------------------
+# U2: the proof is the byte-wise XOR, whatever the bytes are
+
+
+def u2_xor_bytes(src):
+    n = [1, 2, 32, 64][src.choice("length", 4)]
+    pat = src.choice("pattern", 6)
+    a = bytes((37 * i + 11) % 256 for i in range(n))
+    if pat == 0:
+        b = bytes(a)                                  # all zero result
+    elif pat == 1:
+        b = bytes([a[0]]) + bytes(x ^ 0x5A for x in a[1:])   # leading zero byte
+    elif pat == 2:
+        b = bytes(x ^ 0x5A for x in a[:-1]) + bytes([a[-1]])  # trailing zero byte
+    elif pat == 3:
+        b = bytes([a[0] ^ 1]) + bytes(a[1:])          # 0x01 then zeros
+    elif pat == 4:
+        b = bytes(x ^ 0xFF for x in a)                # all ones
+    else:
+        b = bytes((91 * i + 5) % 256 for i in range(n))
+    got = ScramAuthenticator._xor_bytes(a, b)
+    want = bytes(x ^ y for x, y in zip(a, b))
+    if src.twin:
+        want = want[:-1] + bytes([want[-1] ^ 1])
+    src.check(isinstance(got, (bytes, bytearray)) and bytes(got) == want,
+              "_xor_bytes is not the byte-wise XOR of its operands (length or content differs)",
+              got=bytes(got).hex() if isinstance(got, (bytes, bytearray)) else repr(got), want=want.hex())
+
+
 def harnesses(tier):
     hs = [Harness(name="W1_exchange_vs_rfc5802_server", fn=w1_exchange,
                   functions=[ScramAuthenticator.first_message, ScramAuthenticator.process_server_first_message,
@@ -251,6 +387,16 @@ def harnesses(tier):
                   bounds={"usernames": USERNAMES, "tampers": TAMPERS},
                   note="concrete witness runs against an independent RFC 5802 server (hash functions cannot be encoded): enumeration, not a solver verdict",
                   max_seconds=600, twin_max_paths=50)]
+    hs.append(Harness(name="W2_replay_across_logins", fn=w2_replay,
+                      functions=[ScramAuthenticator.__init__, ScramAuthenticator.process_server_first_message,
+                                 ScramAuthenticator.process_server_final_message],
+                      shape="S", symbolic_vars="finite-domain choices: mechanism, username, password, iterations, number of earlier logins",
+                      bounds={"logins": "2..3 in one process"},
+                      stubs=["uuid inside aiokafka.conn replaced by a counter-based generator (fresh value per call)"],
+                      note="concrete witness runs (hash functions cannot be encoded)", twin_max_paths=50))
+    hs.append(Harness(name="U2_xor_bytes_boundaries", fn=u2_xor_bytes, functions=[ScramAuthenticator._xor_bytes], shape="U",
+                      symbolic_vars="finite-domain choices: length (1, 2, 32, 64), byte patterns giving zero / leading-zero / trailing-zero / all-ones results",
+                      bounds={"lengths": [1, 2, 32, 64]}, twin_max_paths=50))
     for mech in HASHES:
         hs.append(Harness(name=f"U1_server_signature_{mech}", fn=u1_server_signature, params={"mech": mech},
                           functions=[ScramAuthenticator.process_server_final_message, ScramAuthenticator._xor_bytes],
